@@ -132,7 +132,7 @@ def wave_case(res, case):
     obs = opos + spos
     key0 = f'C06/wave/{common.h64(case["nl"]):016x}/s{case["style"]}/{"".join(case["plan"])}/cap{caps}'
     actrl = np.zeros((nlines + 3, 3), dtype=np.int32); actrl[:, 0] = -1
-    for l in range(nlines): actrl[l] = (l % 2, 1, 2)
+    for l in range(nlines): actrl[l] = (l % 2, 1 + l % 3, 2 if l % 2 else -3)      # positive and negative weights
 
     def run(reuse=False, strip=False, cuda=False, alloc=None, perm=None, k=None, dl=delays, mode=None, seed=1, a_ctrl=None, datasets=None):
         alloc = alloc or n
